@@ -115,6 +115,10 @@ with SqliteImpl.impl_store.impl_manager as impl:
 
     @impl(ops.round)
     def _round(x, decimals):
+        if isinstance(x.type, sqa.Integer) and decimals >= 0:
+            # Nothing to round. ROUND would take the integer through a REAL, which is
+            # not exact beyond 2**53.
+            return x
         if decimals >= 0:
             res = sqa.func.ROUND(x, decimals, type_=x.type)
         else:
